@@ -384,3 +384,50 @@ def composite_transformations_on_polygons(tier, rng, rep):
                 rep.case(key=(t, cls, many), nontrivial=True, sample=inp if (t, cls, many) == (0, "ProjPolygon", True) else None)
                 if len(rep.failures) >= 3:
                     return
+
+
+@bounded(P, "words_are_not_reduced_behind_the_callers_back", functions=["geometry_tools/representation.py:Representation._word_value", "geometry_tools/representation.py:Representation.set_generator",
+                                                                        "geometry_tools/representation.py:Representation.elements"],
+         note="representations whose upper-case generator is NOT the inverse of the lower-case one (set_generator(..., compute_inverse=False): semigroup representations, rounded inverses): "
+              "the image of a word is the ordered product of its letters' matrices, also for words containing gG or Gg")
+def words_are_not_reduced_behind_the_callers_back(tier, rng, rep):
+    from geometry_tools.representation import Representation
+    N = 60 if tier == 'thorough' else 15
+    rep.rule = "n = 1, 2; letters a, A, b, B set independently (random invertible matrices, and inverses rounded to 2 decimals); words aA, Aa, baAb, abBA, aaAAb, bBaA and random words to length 6; routes rep[w], element, elements, projective transformations acting on a point"
+    rep.bound = f"{N} representations x 2 kinds"
+    fixed = ["aA", "Aa", "baAb", "abBA", "aaAAb", "bBaA", "", "ab", "BA"]
+    for t in range(N):
+        n = 1 + t % 2
+        for kind in ("independent_letters", "rounded_inverses"):
+            mats = {}
+            for g in "ab":
+                M = rng.normal(size=(n + 1, n + 1)) + np.identity(n + 1)
+                mats[g] = M
+                mats[g.upper()] = rng.normal(size=(n + 1, n + 1)) + np.identity(n + 1) if kind == "independent_letters" else np.round(np.linalg.inv(M), 2)
+            words = fixed + ["".join(rng.choice(list("abAB"), size=int(rng.integers(2, 7)))) for _ in range(4)]
+            x = rng.normal(size=n + 1)
+            inp = {"n": n, "kind": kind, "letters": {g: M.tolist() for g, M in mats.items()}}
+
+            def body():
+                R = Representation()
+                PRp = pr.ProjectiveRepresentation()
+                for g, M in mats.items():
+                    R.set_generator(g, M.copy(), compute_inverse=False)
+                    PRp.set_generator(g, pr.Transformation(M.copy(), column_vectors=True), compute_inverse=False)
+                batch = np.asarray(R.elements(list(words)))
+                for i, w in enumerate(words):
+                    W = np.identity(n + 1)
+                    for ch in w:
+                        W = W @ mats[ch]
+                    for rname, G in (("getitem", np.asarray(R[w])), ("element", np.asarray(R.element(w))), ("elements", batch[i])):
+                        if G.shape != W.shape or not np.all(np.abs(G - W) <= 1e-9 * (1 + np.max(np.abs(W)))):
+                            rep.fail("word_image_is_the_word_matrix", f"{kind}, route {rname}: image of {w!r} is not the ordered product of its letters' matrices", {**inp, "word": w, "route": rname}); return
+                    y = np.asarray((PRp[w] @ pr.Point(x.copy())).proj_data, dtype=float)
+                    z = W @ x
+                    cr = np.outer(y, z) - np.outer(z, y)
+                    if not np.all(np.abs(cr) <= 1e-8 * (1 + np.abs(y).max() * np.abs(z).max())):
+                        rep.fail("word_image_is_the_word_matrix", f"{kind}: rep[{w!r}] @ p is not the word's matrix applied to the coordinate vector", {**inp, "word": w, "route": "projective"}); return
+            rep.attempt("representation_runs", inp, body)
+            rep.case(key=(t, kind), nontrivial=True, sample=inp if (t, kind) == (0, "independent_letters") else None)
+            if len(rep.failures) >= 3:
+                return
